@@ -366,7 +366,8 @@ Fixpoint parse_next (d : nat) (s : bytes) (sz : nat) (off : nat) {struct d} : re
   end.
 
 (* JSON::Load *)
-Definition load (s : bytes) : res json := '(j, _) <- parse_next max_depth s (length s) 0 ;; Ok j.
+Definition load_at (d : nat) (s : bytes) : res json := '(j, _) <- parse_next d s (length s) 0 ;; Ok j.
+Definition load (s : bytes) : res json := load_at max_depth s.
 
 (* ------------------------------------------------------------------ json_wrap: script values *)
 (* VInt z: an integral Boxed_Value whose numeric value is z (from_json always produces std::int64_t);
